@@ -873,6 +873,7 @@ class VMDKInspector(FileInspector):
 
     def _initialize(self):
         self.desc_text = None
+        self.vmdktype = 'formatnotfound'
         # This is the header for "Hosted Sparse Extent" type files. It may
         # or may not be used, depending on what kind of VMDK we are about to
         # read.
